@@ -9,6 +9,7 @@ import ComposeVerif.Gen.Globals
   Replayed on the real code by `corpus/C19/project-without-services.json` under the race detector
   (key `race-write@types.(*Project).WithServicesTransform`; reported on the tree before the fix, silent after it).
   The theorem for the code as it is now is `CV.Fanout.fanout_no_field_race`.
+* `fanout_error_depends_on_schedule`: which failing service's error is returned is decided by the schedule.
 * `caller_owned_write_exists`: the full-strength static fact "no load stores into caller-owned data" is false on the
   tree: `loader.projectName` stores into `details.Environment`.  Replayed by `corpus/C19/shared-environment-map.json`
   (key `race-write@loader.projectName`, known finding).  The provable statement is
@@ -20,6 +21,22 @@ def emptyCfg : Cfg := { svcs := [], fn := fun _ => none }
 
 theorem legacy_order_races : RaceAt emptyCfg (initLegacy emptyCfg) :=
   ⟨.mRead, .cExit, false, true, by decide, rfl, rfl, .inr rfl, by decide, by decide⟩
+
+/-- two services, the function fails on both -/
+def twoFail : Cfg := { svcs := [0, 1], fn := fun _ => none }
+
+def errRun (a b : V) : List Label :=
+  [.mRead, .mSpawnC, .mSpawn 0, .mSpawn 1, .mWait, .wBegin 0, .wBegin 1, .wReturn 0, .wReturn 1, .wFail a, .wFail b,
+   .cCtxDone, .cReturn, .mReturn]
+
+/-- **the returned error depends on the schedule**: the same call (two services, both fail) returns the error of service 0
+    under one schedule and the error of service 1 under another — "the result is independent of the schedule" holds at full
+    strength only up to the identity of the error (`fanout_schedule_independent_partial`); the property asks for the FIRST
+    error, which is what `fanout_first_error` proves -/
+theorem fanout_error_depends_on_schedule :
+    (run twoFail (init twoFail) (errRun 0 1)).map (fun s => (s.m, s.firstErr)) = some (.returned, some 0) ∧
+    (run twoFail (init twoFail) (errRun 1 0)).map (fun s => (s.m, s.firstErr)) = some (.returned, some 1) := by
+  decide
 
 end CV.Fanout
 
